@@ -65,6 +65,14 @@ func genSegDesc(t *rapid.T, allowForeign bool) ref.SpliceDesc {
 			d.UPIDType = 0x09
 		}
 		d.UPID = genBytes(t, 0, 40, "seg-upid")
+		if rapid.IntRange(0, 7).Draw(t, "seg-upid-long") == 0 {
+			// long UPIDs: several of them push section_length beyond 1023 (it is a 12-bit field)
+			d.UPID = genBytes(t, 200, 240, "seg-upid-long-bytes")
+			// descriptor_length is one byte
+			if over := len(d.Bytes()) - 2 - 255; over > 0 {
+				d.UPID = d.UPID[:len(d.UPID)-over]
+			}
+		}
 	}
 	return d
 }
@@ -110,9 +118,21 @@ func genSplice(t *rapid.T, allowForeign bool) ref.Splice {
 		s.Ins = i
 	}
 	nd := rapid.IntRange(0, 5).Draw(t, "ndescs")
+	long := rapid.IntRange(0, 11).Draw(t, "long-section") == 0
+	if long {
+		nd = rapid.IntRange(5, 7).Draw(t, "ndescs-long")
+	}
 	s.Descs = []ref.SpliceDesc{}
 	for k := 0; k < nd; k++ {
-		s.Descs = append(s.Descs, genSegDesc(t, allowForeign))
+		d := genSegDesc(t, allowForeign)
+		if long && !d.Foreign && !d.Cancel && d.UPIDType != 0x0D {
+			// a section longer than 1023 bytes: section_length is a 12-bit field
+			d.UPID = genBytes(t, 200, 240, "long-upid")
+			if over := len(d.Bytes()) - 2 - 255; over > 0 {
+				d.UPID = d.UPID[:len(d.UPID)-over]
+			}
+		}
+		s.Descs = append(s.Descs, d)
 	}
 	return s
 }
